@@ -52,6 +52,7 @@ type Defects struct {
 	NamedFormat      bool // definition/root of a format string is a named struct type without methods
 	NamedArrayNoLim  bool // a definition/root of type array is a named slice type without any validator
 	EnumNullZero     bool // null for a defaulted enum-typed property runs the enum check on the zero value
+	MapValueAnon     bool // inline object/array schemas used as additionalProperties of a property-less object are anonymous Go types
 }
 
 type evalCtx struct {
@@ -687,6 +688,11 @@ func (c *evalCtx) evalObject(s *sg.Schema, o jsonx.Obj, path string, pos ctxPos)
 						continue
 					}
 				}
+			}
+			if c.d.MapValueAnon && len(s.Props) == 0 && s.AddProps.Ref == "" {
+				// map[string]struct{...}: the value type has no unmarshaler of its own
+				c.anonItem(s.AddProps, kv.V, path+"/"+kv.K, ctxPos{addProp: true, nonPtr: true, noArrLim: true})
+				continue
 			}
 			c.eval(s.AddProps, kv.V, path+"/"+kv.K, ctxPos{addProp: true})
 		}
